@@ -39,7 +39,7 @@ CONSTANTS Pods,      \* pod ids (naturals >= 1)
           Enis,      \* interface ids
           Enforce    \* subset of {"C04", "C05", "C09"}
 
-G(p, clause) == p \notin Enforce \/ clause
+G(p, clause) == IF p \in Enforce THEN clause ELSE TRUE
 GA(clause) == Enforce \cap {"C04", "C05", "C09"} = {} \/ clause
 
 NoRec == [c |-> 0, e |-> 0, a |-> 0, s |-> FALSE]        \* a stored record: container id, interface, address, sticky
